@@ -60,7 +60,9 @@ var (
 	letters       = []string{"C", "D", "E", "F", "G", "A", "B"}
 	plainSymbols  = []string{"m", "m7", "maj7", "M7", "dim", "aug", "sus4", "sus2", "m7b5", "dim7", "add9", "mM7", "m9", "maj9", "m6", "augM7", "mM9", "M9"}
 	numSymbols    = []string{"7", "9", "6", "7sus4"}
-	oddSymbols    = []string{"+", "-", "°", "ø7", "Δ", "(b9)", "m]", "x{y}", "m,7", "m#5", "ｍ", "x]y", "!", "mé7", "日本", "%", "m}", "q:r", "'", "\"", "*", "&", "|", "~", "\\", "^", "@"}
+	oddSymbols    = []string{"+", "-", "°", "ø7", "Δ", "(b9)", "m]", "x{y}", "m,7", "m#5", "ｍ", "x]y", "!", "mé7", "日本", "%", "m}", "q:r", "'", "\"", "*", "&", "|", "~", "\\", "^", "@",
+		// decimal digits outside ASCII are symbol characters, not NUMBERs
+		"٣", "１", "m７", "१३", "௧", "²", "Ⅳ", "߂"}
 	dynamics      = []string{"pp", "p", "mp", "mf", "f", "ff"}
 	SupportedKeys = []string{
 		"Cb", "Gb", "Db", "Ab", "Eb", "Bb", "F", "C", "G", "D", "A", "E", "B", "F#", "C#",
